@@ -159,12 +159,27 @@ Proof.
   rewrite null_if_In, sset_insert_In. simpl. intuition.
 Qed.
 
+Definition flat_variant (t z : shape) : Prop :=
+  match t with
+  | SOneOf vs _ => In z vs
+  | _ => z = as_non_optional t
+  end.
+
+Lemma insert_flat_In t acc z : In z (insert_flat t acc) <-> flat_variant t z \/ In z acc.
+Proof.
+  destruct t; simpl; try (rewrite sset_insert_In; tauto).
+  rewrite sset_union_In. tauto.
+Qed.
+
+Lemma insert_flat_sorted t acc : sorted cmp acc = true -> sorted cmp (insert_flat t acc) = true.
+Proof. destruct t; simpl; intro H; try (apply sset_sorted_insert; exact H). apply sset_sorted_union. exact H. Qed.
+
 Lemma tuple_array_set_In t es z :
   In z (tuple_array_set t es) <->
-  z = t \/ (exists e, In e es /\ z = as_non_optional e) \/
+  flat_variant t z \/ (exists e, In e es /\ z = as_non_optional e) \/
   ((existsb is_optional es || is_optional t) = true /\ z = SNull).
 Proof.
-  unfold tuple_array_set. rewrite fold_nonopt_In, sset_insert_In, null_if_In. simpl. intuition.
+  unfold tuple_array_set. rewrite fold_nonopt_In, insert_flat_In, null_if_In. simpl. intuition.
 Qed.
 
 Lemma tuples_set_In es os z :
@@ -206,13 +221,21 @@ Proof.
     apply null_if_In in Hin. destruct Hin as [[_ ->]|Hin]; [reflexivity|auto].
 Qed.
 
+Lemma flat_variant_wf t z : wf t = true -> flat_variant t z -> wf z = true.
+Proof.
+  destruct t; simpl; intros Hw Hz; try (subst; reflexivity); try (subst; exact Hw).
+  apply andb_true_iff in Hw. destruct Hw as [_ Hw]. rewrite forallb_forall in Hw. auto.
+Qed.
+
 Lemma wf_tuple_array t es o : wf t = true -> Forall (fun e => wf e = true) es ->
   wf (SArray (SOneOf (tuple_array_set t es) false) o) = true.
 Proof.
   intros Ht Hes. change (wf (SOneOf (tuple_array_set t es) false) = true). apply wf_oneof. split.
-  - unfold tuple_array_set. apply fold_nonopt_sorted. apply sset_sorted_insert. apply null_if_sorted. reflexivity.
+  - unfold tuple_array_set. apply fold_nonopt_sorted. apply insert_flat_sorted. apply null_if_sorted. reflexivity.
   - intros v Hv. apply tuple_array_set_In in Hv. rewrite Forall_forall in Hes.
-    destruct Hv as [->|[[e [He ->]]|[_ ->]]]; auto. rewrite wf_nonopt. auto.
+    destruct Hv as [Hv|[[e [He ->]]|[_ ->]]]; auto.
+    + eapply flat_variant_wf; eassumption.
+    + rewrite wf_nonopt. auto.
 Qed.
 
 Lemma wf_tuples_set es os o : Forall (fun e => wf e = true) es -> Forall (fun e => wf e = true) os ->
